@@ -60,6 +60,14 @@ type world struct {
 
 	oracles  []*helpers.Signer // sorted by address bytes: id = index
 	bridgers []sdk.AccAddress
+	bkeys    []*helpers.Signer // keys of the bridger accounts (they sign MsgClaim / MsgRequestBatch transactions)
+	txmode   bool              // environment world whose claims and pool messages are SIGNED TRANSACTIONS inside FinalizeBlock
+	txs      [][]byte          // transactions of the pending block
+	txAhead  map[string]uint64 // per signer: transactions already queued for the pending block
+	txRes    []*abci.ExecTxResult
+	claimTxClosed bool // signed MsgClaim transactions turned out to be undeliverable in this tree: claims go through the router
+	claimTx  []int  // indexes (in the pending block) of the claim transactions of the current event
+	afterCommit func() // txmode: writes the `intx …` lines of the ops the block's transactions carried, before the block's own line
 	exts     []*ecdsa.PrivateKey
 	extAddr  []string
 	vals     []sdk.ValAddress // vals[i] for i < nval are real; beyond: well-formed but unknown
@@ -96,6 +104,7 @@ type cfgT struct {
 	win  uint64
 	chain string // "" = eth
 	env   bool
+	txmode bool // env worlds: claims and pool messages as signed transactions inside FinalizeBlock
 	frac  *sdkmath.LegacyDec // nil = random slash fraction
 }
 
@@ -104,9 +113,13 @@ func (w *world) ctx() sdk.Context { return w.s.Ctx }
 func (w *world) commitAt(t time.Time) {
 	s := w.s
 	h := s.Ctx.BlockHeight()
-	if _, err := s.App.FinalizeBlock(&abci.RequestFinalizeBlock{Height: h, Time: t, ProposerAddress: s.Ctx.BlockHeader().ProposerAddress}); err != nil {
+	txs := w.txs
+	w.txs, w.txRes = nil, nil
+	fres, err := s.App.FinalizeBlock(&abci.RequestFinalizeBlock{Height: h, Time: t, ProposerAddress: s.Ctx.BlockHeader().ProposerAddress, Txs: txs})
+	if err != nil {
 		panic(err)
 	}
+	w.txRes = fres.TxResults
 	if _, err := s.App.Commit(); err != nil {
 		panic(err)
 	}
@@ -435,6 +448,43 @@ func (w *world) monitors(op, res string) {
 		}
 	}
 	// stake recoverable: removed by governance, everything matured → UnbondedOracle must succeed (dry run)
+	if strings.HasPrefix(op, "block") && res == "ok" && w.tainted {
+		// after a validator slash part of the stake is legitimately gone; what must still hold (Props/C13
+		// unbond_refused_only_for_unpaid_penalty): a removed oracle whose unbonding entries have all been paid out either unbonds
+		// successfully, receiving the delegate-address balance minus the penalty, or is refused ONLY because that balance does not
+		// cover the penalty
+		for _, o := range all {
+			id := w.oid(o.OracleAddress)
+			if id < 0 || o.Online || w.k.IsProposalOracle(ctx, o.OracleAddress) || !w.removed[id] {
+				continue
+			}
+			if ubds, _ := w.s.App.StakingKeeper.GetUnbondingDelegations(ctx, w.daddr(id), 10); len(ubds) > 0 {
+				continue
+			}
+			c, _ := ctx.CacheContext()
+			held := w.balOf(w.daddr(id))
+			pen := o.GetSlashAmount(frac)
+			beforeB := w.s.App.BankKeeper.GetBalance(c, w.oracles[id].AccAddress(), fxtypes.DefaultDenom).Amount
+			r := kind(hx.Try(func() error {
+				_, err := w.ms.UnbondedOracle(c, &types.MsgUnbondedOracle{OracleAddress: o.OracleAddress, ChainName: w.chain})
+				return err
+			}), errTable, "other")
+			switch {
+			case r == "ok":
+				w.out.Count("valslash:removed-oracle-unbonds:ok")
+				if got := w.s.App.BankKeeper.GetBalance(c, w.oracles[id].AccAddress(), fxtypes.DefaultDenom).Amount.Sub(beforeB); !got.Equal(held.Sub(pen)) {
+					w.violate("wrong payout in UnbondedOracle after a validator slash: paid amount is not delegate-address balance minus penalty")
+				}
+			case r == "err:slash-short" && held.LT(pen):
+				// observation (not a violation of the property text: stake minus penalty is negative here): the record stays until
+				// somebody tops the delegate address up by the shortfall
+				w.out.Count("valslash:removed-oracle-unbond-blocked-by-uncovered-penalty")
+				w.out.Nontrivial("valslash:unbond-blocked-by-uncovered-penalty")
+			default:
+				w.violate("stake not recoverable after a validator slash: UnbondedOracle of a removed, fully matured oracle fails although its delegate address covers the penalty (" + r + ")")
+			}
+		}
+	}
 	if strings.HasPrefix(op, "block") && res == "ok" && !w.tainted {
 		for _, o := range all {
 			id := w.oid(o.OracleAddress)
@@ -480,7 +530,47 @@ func (w *world) opGov(ids []int) {
 		ss = append(ss, fmt.Sprint(i))
 	}
 	before := w.k.GetAllOracles(w.ctx(), false)
+	// the power-change cap, stated on the real state: online power the update takes away vs the online power before it
+	oldList, _ := w.k.GetProposalOracle(w.ctx())
+	wasListed := map[string]bool{}
+	for _, a := range oldList.Oracles {
+		wasListed[a] = true
+	}
+	inNew := map[string]bool{}
+	for _, a := range list {
+		inNew[a] = true
+	}
+	totalOn, removedOn := sdkmath.ZeroInt(), sdkmath.ZeroInt()
+	for _, o := range before {
+		if o.Online {
+			totalOn = totalOn.Add(o.GetPower())
+			if !inNew[o.OracleAddress] && wasListed[o.OracleAddress] {
+				removedOn = removedOn.Add(o.GetPower())
+			}
+		}
+	}
 	res := kind(w.tx(func(ctx sdk.Context) error { return w.k.UpdateProposalOracles(ctx, list) }), errTable, "staking")
+	if removedOn.IsPositive() {
+		// where the update sits relative to the 30 % boundary (distribution)
+		l, r := removedOn.MulRaw(100), totalOn.MulRaw(30)
+		cls := "below"
+		switch {
+		case l.Equal(r):
+			cls = "exactly-30pct"
+		case l.GT(r):
+			cls = "above"
+		case removedOn.AddRaw(1).MulRaw(100).GTE(r):
+			cls = "one-power-unit-below"
+		}
+		w.out.Count("gov:cap:" + cls + ":" + res)
+		w.out.Nontrivial("gov:cap:" + cls + ":" + res)
+		if res == "ok" && l.GTE(r) {
+			w.violate(fmt.Sprintf("governance update above the power-change cap succeeded: it takes %s of %s online oracle power offline at once (30 %% or more)", removedOn, totalOn))
+		}
+		if res == "err:cap" && removedOn.LT(totalOn.MulRaw(30).QuoRaw(100)) {
+			w.out.Count("gov:cap:refused-below-threshold")
+		}
+	}
 	if res == "ok" {
 		in := map[string]bool{}
 		for _, a := range list {
@@ -839,6 +929,10 @@ func (w *world) opBlock(dt int64) {
 		return
 	}
 	w.out.Count("block:ok")
+	if f := w.afterCommit; f != nil {
+		w.afterCommit = nil
+		f()
+	}
 	// a few blocks after a successful unbond: nothing of the stake may turn up at, or still be bound from, the delegate
 	// address of the deleted record (nobody holds a key for it)
 	for _, id := range sortedIDs(w.gone) {
@@ -929,7 +1023,7 @@ func newWorld(t *testing.T, out *hx.Out, rng *rand.Rand, mode string, cfg cfgT) 
 	if chain == "" {
 		chain = "eth"
 	}
-	w := &world{t: t, s: s, k: keeperOf(s, chain), chain: chain, tron: chain == trontypes.ModuleName, env: cfg.env, out: out, rng: rng, mode: mode, nval: nval, now: baseTime, removed: map[int]bool{}, gone: map[int]*goneT{}, joined: map[int]int64{}}
+	w := &world{t: t, s: s, k: keeperOf(s, chain), chain: chain, tron: chain == trontypes.ModuleName, env: cfg.env, txmode: cfg.env && cfg.txmode, out: out, rng: rng, mode: mode, nval: nval, now: baseTime, removed: map[int]bool{}, gone: map[int]*goneT{}, joined: map[int]int64{}}
 	out.Count("world:chain=" + chain)
 	w.ms = crosschainkeeper.NewMsgServerImpl(w.k)
 	w.commitAt(w.now)
@@ -1011,7 +1105,9 @@ func newWorld(t *testing.T, out *hx.Out, rng *rand.Rand, mode string, cfg cfgT) 
 		s.MintToken(o.AccAddress(), sdk.NewCoin(fxtypes.DefaultDenom, bal0))
 	}
 	for i := 0; i < n+2; i++ {
-		w.bridgers = append(w.bridgers, helpers.GenAccAddress())
+		bk := helpers.NewSigner(helpers.NewEthPrivKey())
+		w.bkeys = append(w.bkeys, bk)
+		w.bridgers = append(w.bridgers, bk.AccAddress())
 		key, _ := ethcrypto.GenerateKey()
 		w.exts = append(w.exts, key)
 		w.extAddr = append(w.extAddr, types.ExternalAddrToStr(w.chain, ethcrypto.PubkeyToAddress(key.PublicKey).Bytes()))
@@ -1498,6 +1594,81 @@ func (w *world) lifecycle(variant int) {
 	}
 }
 
+// capBoundary: five oracles with 1000 power units in total; governance tries to drop oracle 0, which holds 300 + k units
+// (k = -1: one unit below 30 % → accepted; k = 0: exactly 30 % → refused; k = +1: refused), then drops a 175-unit oracle (17.5 %)
+func (w *world) capBoundary(k int64) {
+	all := []int{0, 1, 2, 3, 4}
+	w.opGov(all)
+	pw := func(n int64) sdkmath.Int { return w.pr.MulRaw(n) }
+	w.opBond(0, 0, 0, 0, pw(300+k))
+	for i := 1; i < 5; i++ {
+		a := int64(175)
+		if i == 1 {
+			a -= k
+		}
+		w.opBond(i, i, i, i%w.nval, pw(a).AddRaw(int64(w.rng.Intn(1000)))) // sub-unit dust does not count as power
+	}
+	w.opBlock(5)
+	w.opGov(all[1:])
+	w.opBlock(5)
+	w.opGov([]int{0, 1, 2, 3}) // oracle 4 (175 of the online power) leaves, and oracle 0 is (re-)listed
+	w.opBlock(5)
+	// an offline oracle's power does not count on either side: after the end-blocker slashed the non-confirming oracle 1
+	// (nobody confirms anything here) the same kind of update is measured against what is still online
+	for i := uint64(0); i < w.window+2 && !w.dead; i++ {
+		w.opBlock(5)
+	}
+	if !w.dead {
+		w.opGov([]int{0, 2, 3})
+		w.opBlock(5)
+	}
+}
+
+// shortfall: an oracle is penalised by the end-blocker, then its validator is slashed so hard that what is left of the stake
+// does not cover the penalty, then governance removes it and the unbonding entry matures
+func (w *world) shortfall() {
+	all := []int{0, 1, 2, 3, 4}
+	w.opGov(all)
+	for i := 0; i < 5; i++ {
+		v := 0
+		if i > 0 {
+			v = 1 % w.nval
+		}
+		w.opBond(i, i, i, v, w.thr)
+	}
+	dil := map[int]bool{1: true, 2: true, 3: true, 4: true}
+	w.opMkCall()
+	for i := uint64(0); i < w.window+3 && !w.dead; i++ {
+		w.opBlock(5)
+		w.confirmRound(dil, 1)
+	}
+	if w.dead {
+		return
+	}
+	w.opValSlash(0, 9, 10)
+	w.opGov(all[1:])
+	w.opBlock(w.unb + 1)
+	w.opBlock(5)
+	w.opUnbond(0)
+	// top the delegate address up by the shortfall: now the unbond must go through
+	if rec, ok := w.k.GetOracle(w.ctx(), w.oracles[0].AccAddress()); ok {
+		if short := rec.GetSlashAmount(w.k.GetSlashFraction(w.ctx())).Sub(w.balOf(w.daddr(0))); short.IsPositive() {
+			w.s.MintToken(w.daddr(0), sdk.NewCoin(fxtypes.DefaultDenom, short))
+			w.out.Count("shortfall:topped-up")
+			rec0 := rec
+			r := kind(w.tx(func(ctx sdk.Context) error {
+				_, err := w.ms.UnbondedOracle(ctx, &types.MsgUnbondedOracle{OracleAddress: rec0.OracleAddress, ChainName: w.chain})
+				return err
+			}), errTable, "other")
+			w.out.Count("shortfall:unbond-after-top-up:" + r)
+			if r != "ok" {
+				w.violate("stake not recoverable after a validator slash: UnbondedOracle still fails after the delegate address was topped up to the penalty (" + r + ")")
+			}
+		}
+	}
+	w.opBlock(5)
+}
+
 func runAll(t *testing.T, mode string) {
 	seed := hx.Seed()
 	rng := rand.New(rand.NewSource(seed))
@@ -1550,11 +1721,23 @@ func runAll(t *testing.T, mode string) {
 			w.sequence(length)
 		}
 	}
+	if mode == "c13" {
+		// directed: the 30 % power-change cap at its boundary (one power unit below / exactly / one above), and a validator slash
+		// that leaves less than the penalty
+		hundred, eighty := sdk.DefaultPowerReduction.MulRaw(100), sdkmath.LegacyNewDecWithPrec(8, 1)
+		for _, k := range []int64{-1, 0, 1} {
+			w := newWorld(t, out, rng, mode, cfgT{thr: &hundred, mult: 10, win: 3})
+			w.capBoundary(k)
+		}
+		w := newWorld(t, out, rng, mode, cfgT{thr: &hundred, mult: 2, win: 3, frac: &eighty, unb: 12})
+		w.shortfall()
+	}
 	if mode == "c07" {
 		// environment worlds: pool / batch / bridge-call / attestation traffic on every chain, a real block after every op
 		nenv := hx.N(len(allChains), 6*len(allChains))
 		for i := 0; i < nenv; i++ {
-			w := newWorld(t, out, rng, mode, cfgT{chain: allChains[i%len(allChains)], env: true})
+			// every second environment world delivers its claims and pool messages as signed transactions inside FinalizeBlock
+			w := newWorld(t, out, rng, mode, cfgT{chain: allChains[i%len(allChains)], env: true, txmode: (i+i/len(allChains))%2 == 1})
 			w.envSequence(hx.N(16, 40))
 		}
 		checkAppBlockers(t, out)
